@@ -39,6 +39,8 @@ pub struct CongestionController {
     // epoch packet trackers
     trackers: [Arc<dyn Feedback>; 3],
     need_send_ack_eliciting_packets: [usize; Epoch::count()],
+    // whether the keys (and with them the recovery state) of an epoch have been discarded
+    discarded_epochs: [bool; Epoch::count()],
     path_status: PathStatus,
     tx_waker: ArcSendWaker,
 }
@@ -73,6 +75,7 @@ impl CongestionController {
             pending_burst: false,
             trackers,
             need_send_ack_eliciting_packets: [0; Epoch::count()],
+            discarded_epochs: [false; Epoch::count()],
             path_status,
             tx_waker,
         }
@@ -458,6 +461,12 @@ impl CongestionController {
     //   SetLossDetectionTimer()
     fn discard_epoch(&mut self, epoch: Epoch) {
         assert!(epoch != Epoch::Data);
+        // Discarding is a one-off event: callers invoke this on every Handshake packet sent
+        // (client) or acknowledged (server), and resetting `pto_count` each time would undo
+        // the PTO back-off.
+        if std::mem::replace(&mut self.discarded_epochs[epoch], true) {
+            return;
+        }
         self.packet_spaces[epoch].discard(&mut self.algorithm);
         self.loss_detection_timer = None;
         self.pto_count = 0;
